@@ -17,6 +17,9 @@ def plan(tier, seed):
     for sch in ("CT14.Pi", "ANSS16.Scheme3"):
         specs.append({"name": f"padding-keywords-{gen.SHORT[sch]}", "kind": "padding", "scheme": sch,
                       "rounds": 25 if tier == "quick" else 600, "budget_s": 60 if tier == "quick" else 400})
+    for j in range(2 if tier == "quick" else 4):
+        specs.append({"name": f"steered-values-{j}", "kind": "steered", "index": j * 3,
+                      "budget_s": 10 if tier == "quick" else 200})
     return specs
 
 
@@ -101,10 +104,15 @@ def run_shard(spec, acc, ctx):
     if spec.get("kind") == "padding":
         run_padding(spec, acc, ctx)
         return
+    if spec.get("kind") == "steered":
+        eng.run_steered(spec, acc, ctx, "absent")
+        return
     eng.run(spec, acc, ctx, "absent")
 
 
 def replay(case, acc, ctx):
+    if case.get("steered"):
+        return eng.replay_steered(case, acc, ctx, "absent")
     scheme, cfg, db = case["scheme"], case["cfg"], case["db"]
     if case.get("db_class") == "padding":
         import copy
